@@ -20,6 +20,10 @@ def gen_pool(rng, n=4, locals_=False, epochs=True, self_regular=None):
         b = rng.choice(bases)
         pool.append(ep + b + rng.choice(SUFFIX[4:]))
         pool.append(ep + b)
+    if locals_ and rng.random() < 0.35:
+        # a version together with a local build of the very same version (Version.allows is deliberately weak there)
+        b = rng.choice(bases)
+        pool.append(ep + b + rng.choice(["+local", "+ubuntu.1", "+1"])); pool.append(ep + b)
     if epochs and rng.random() < 0.1:
         pool.append(rng.choice(["1!", "2!"]) + rng.choice(bases))
     return pool
